@@ -302,6 +302,12 @@ def run_cases(name: str, requires: list[str], case_ty: str, ok_fun: str, cases: 
     """Evaluate `bad_indices ok_fun cases` in shards (parallel coqc).  Returns
     (all_compiled: bool, bad: list[int], log: str)."""
     from concurrent.futures import ThreadPoolExecutor
+    # the modules the case files Require need not be dependencies of the Props file the check built: build them (no-op when up to date)
+    tg = [r[3:].replace(".", "/") + ".vo" for r in requires if r.startswith("PV.")]
+    if tg:
+        okb, logb = coq_make(tg)
+        if not okb:
+            return False, [], "required modules do not build:\n" + logb[-2000:]
     shards = [cases[i:i + shard] for i in range(0, len(cases), shard)] or [[]]
     def one(k):
         body = defs + f"\nDefinition the_cases : list ({case_ty}) := " + clist(["\n  " + c for c in shards[k]]) + ".\n"
